@@ -236,7 +236,7 @@ const REGRESSIONS: [&str; 4] = [
 ];
 
 pub fn def(tier: Tier) -> CheckDef {
-    let rounds = tier.pick(6, 100);
+    let rounds = tier.pick(40, 400);
     let max_size = tier.pick(5, 6);
     CheckDef {
         id: "C03",
@@ -248,6 +248,7 @@ pub fn def(tier: Tier) -> CheckDef {
         ],
         idle_limit_s: 120,
         needs_cli: false,
+        fuzz: None,
         parts: vec![
             Part {
                 name: "regressions",
@@ -272,7 +273,7 @@ pub fn def(tier: Tier) -> CheckDef {
                 run: Box::new(|ctx, r| ctx.prop("generated", r, 400, 600, generated_case)),
                 replay: Some(Box::new(|ctx, inp| match inp {
                     ReplayInput::Choices(c) => generated_case(ctx, &mut Ch::new(c)),
-                    ReplayInput::Text(_) => Err(Failure::new("this part replays from choices", "")),
+                    _ => Err(Failure::new("this part replays from choices", "")),
                 })),
             },
             Part {
